@@ -153,7 +153,7 @@ def tags(kind, **kw):
     return t
 
 
-def case_input(rec, c, mod=None):
+def case_input(rec, c, mod=None, reuse=None):
     import pyPRISM
     if mod is None:
         mod, err = ensure_built()
@@ -170,6 +170,19 @@ def case_input(rec, c, mod=None):
     if order is not None:
         pos = pos[:, order, :]
         mol = mol[order]
+    if c.get('labels'):             # molecule labels need not be 0..M-1: negative, non-contiguous values
+        lab = np.array([7, -2, 1000003, 0, 11, -9], dtype=np.int64)
+        mol = lab[mol % len(lab)] + (mol // len(lab)) * 17
+    if c.get('unwrap'):             # coordinates kept "whole": site i shifted by (i mod 7 - 3) box lengths, per axis differently
+        sh = (np.arange(n) % 7 - 3).reshape(1, n, 1) * np.array([1, -1, 2]).reshape(1, 1, 3)
+        pos = pos + sh * box.reshape(frames, 1, 3)
+    layout = c.get('layout')
+    if layout == 'fortran':
+        pos = np.asfortranarray(pos)
+    elif layout == 'float32':
+        pos = np.asarray(pos, dtype=np.float32).astype(np.float64).astype(np.float32)
+    elif layout == 'strided':
+        pos = np.repeat(pos, 2, axis=1)[:, ::2, :]
     dom = pyPRISM.Domain(length=c.get('length', LENGTH), dk=c.get('dk', DK))
     k = np.asarray(dom.k)
     if split is None:
@@ -190,7 +203,14 @@ def case_input(rec, c, mod=None):
             for rep in range(c.get('reps', REPS)):
                 set_team(team)
                 try:
-                    deb = mod.Debyer(domain=dom, nthreads=nc)
+                    key = (c.get('length', LENGTH), c.get('dk', DK), nc)
+                    if c.get('reuse') and reuse is not None:
+                        # one Debyer object per chunk count serves all the inputs of the shard (other sizes, frames, boxes before this one)
+                        deb = reuse.get(key)
+                        if deb is None:
+                            deb = reuse[key] = mod.Debyer(domain=dom, nthreads=nc)
+                    else:
+                        deb = mod.Debyer(domain=dom, nthreads=nc)
                     got = np.asarray(deb.calculate(p1, p2, m1, m2, box, selfo), dtype=float)
                 except Exception as e:
                     rec.fail(dict(c, chunks=[nc], team=team), 'Debyer(nthreads=%d).calculate raised %s: %s' % (nc, type(e).__name__, str(e)[:100]), tags('raises'))
@@ -276,8 +296,9 @@ def _worker(chunk):
         mod, err = ensure_built()
         if mod is None:
             raise HarnessError(err)
+        reuse = {}
         for c in chunk:
-            case_input(rec, c, mod)
+            case_input(rec, c, mod, reuse)
     return rec.to_dict()
 
 
@@ -313,6 +334,16 @@ def run(rec, tier, seed):
         for n, part in ((5, [0, 0, 0, 0, 0]), (13, [0] * 13), (13, [i // 7 for i in range(13)])):
             cases.append({'n': n, 'molecules': part, 'frames': 1, 'box': 'small', 'split': None, 'chunks': [1, 3], 'length': L, 'dk': dk})
             cases.append({'n': n, 'molecules': part, 'frames': 1, 'box': 'large', 'split': n // 2, 'chunks': [2], 'length': L, 'dk': dk})
+    # unwrapped coordinates, arbitrary molecule labels, memory layouts / float32 positions, one object reused for all inputs
+    for n in (3, 4, 5):
+        for part in partitions(n)[::2]:
+            for frames in (1, 2):
+                cases.append({'n': n, 'molecules': part, 'frames': frames, 'box': 'small', 'split': None, 'chunks': [1, 2, 3], 'unwrap': True})
+                cases.append({'n': n, 'molecules': part, 'frames': frames, 'box': 'npt', 'split': 1, 'chunks': [2], 'unwrap': True, 'labels': True})
+                cases.append({'n': n, 'molecules': part, 'frames': frames, 'box': 'small', 'split': None, 'chunks': [2], 'labels': True, 'reuse': True})
+    for n in (2, 5, 3, 7):
+        for layout in ('fortran', 'float32', 'strided'):
+            cases.append({'n': n, 'molecules': [i % 2 for i in range(n)], 'frames': 2, 'box': 'small', 'split': None, 'chunks': [1, 3], 'layout': layout, 'reuse': True})
     # contention: many pairs, few bins, many chunks and threads, more repetitions (a shared accumulator loses updates here)
     for n in ((60,) if quick else (60, 120)):
         cases.append({'n': n, 'molecules': [0] * n, 'frames': 2, 'box': 'small', 'split': None, 'chunks': [16, 7], 'reps': 6, 'length': 4, 'dk': 0.9})
@@ -361,7 +392,8 @@ def run(rec, tier, seed):
     rec.note('alphabets', {'sites': [1, nmax], 'molecule_partitions': 'all set partitions (every third for 6 sites)', 'boxes': BOXES,
                            'chunk_counts': '1..N+2 and 16', 'openmp_team_sizes': TEAMS, 'repetitions': REPS, 'site_orders': 'all permutations for N <= 4',
                            'domain': {'length': LENGTH, 'dk': DK}, 'long_domains': '(2048, 0.02) quick; + (4096, 0.01), (8192, 0.01) thorough',
-                           'per_frame_boxes': 'npt: box scaled anisotropically from frame to frame (2 and 3 frames)'})
+                           'per_frame_boxes': 'npt: box scaled anisotropically from frame to frame (2 and 3 frames)',
+                           'also': 'coordinates shifted by -3..3 box lengths per site and axis; molecule labels negative / non-contiguous; positions in Fortran order, float32, strided; one Debyer object reused for inputs of different sizes'})
     rec.note('not_enumerated', 'the interleaving of OpenMP threads inside one run')
     rec.sample({'n': 4, 'molecules': [0, 1, 0, 1], 'frames': 1, 'box': 'small', 'split': None})
     rec.sample({'n': 5, 'molecules': [0, 0, 1, 1, 0], 'frames': 2, 'box': 'large', 'split': 2})
